@@ -104,9 +104,12 @@ theorem aget_some_mem (a : Attrs) (k : String) (v : Val) (h : aget? a k = some v
     rw [← hk, ← h]; exact hm
 
 theorem columnKind_int (cells : List (Option Val)) (hne : (cells.filterMap id).isEmpty = false)
-    (hall : (cells.filterMap id).all isI = true) : columnKind cells = .int64 := by
+    (hall : (cells.filterMap id).all isI = true) : columnKind cells = .int64 ∨ columnKind cells = .uint64 := by
   unfold columnKind
   simp only [hne, hall, Bool.false_eq_true, if_false, if_true]
+  split
+  · exact Or.inr rfl
+  · exact Or.inl rfl
 
 theorem columnKind_float (cells : List (Option Val)) (hne : (cells.filterMap id).isEmpty = false)
     (hnotI : (cells.filterMap id).all isI = false) (hnum : (cells.filterMap id).all isNum = true) :
